@@ -162,4 +162,21 @@ example : nlLines ⟨10, 10, 4⟩ 10 [[97, 10], [53, 48, 32, 98, 10], [99]]
   simp [nlLines, nlLine, rstripNL, rstripBy, leadingNumber, padRight, digits, parseNat, isDigit,
     List.takeWhile, List.dropWhile]
 
+/-- with standard input among the sources (its text is not newline-translated: only LF ends a line there): the same numbering rule
+    over the lines the sources deliver -/
+theorem run_src_eq_spec (cfg : NlCfg) (srcs : List (Bool × Str)) :
+    nlRunSrc cfg srcs = specNl cfg.start cfg.incr cfg.width none (srcs.flatMap (fun p => sourceLines p.1 p.2)) := by
+  unfold nlRunSrc
+  exact lines_eq_spec_aux cfg _ cfg.start none rfl
+
+/-- file arguments only: the run of the other theorems -/
+theorem run_src_files (cfg : NlCfg) (files : List Str) : nlRunSrc cfg (files.map (fun f => (false, f))) = nlRun cfg files := by
+  unfold nlRunSrc nlRun
+  congr 1
+  induction files with
+  | nil => rfl
+  | cons f fs ih =>
+    simp only [List.map_cons, List.flatMap_cons, ih]
+    rfl
+
 end Moto.C16
